@@ -2,6 +2,7 @@ package rules
 
 import (
 	"fmt"
+	"go/ast"
 	"go/token"
 	"go/types"
 	"os"
@@ -54,7 +55,6 @@ var c06NodeOnly = map[string]string{
 	"compactcopy":            "state compaction (C06-R2)",
 	"compactcontainercopy":   "state compaction (C06-R2)",
 	"compactcontaineredit":   "state compaction (C06-R2)",
-	"allsigners":             "logging helper",
 	"newmetrics":             "metrics",
 	"metrics.endstagecommit": "metrics", "metrics.endstageprepare": "metrics", "metrics.endstageproposal": "metrics",
 	"metrics.setround": "metrics", "metrics.startstage": "metrics",
@@ -184,11 +184,21 @@ func c06Norm(s string) string {
 var reQ = regexp.MustCompile(`Q\.[A-Za-z0-9_.]+`)
 
 func c06FoldQ(s string) string {
-	return reQ.ReplaceAllStringFunc(s, strings.ToLower)
+	return reQ.ReplaceAllStringFunc(s, func(m string) string {
+		m = strings.ToLower(m)
+		if r, ok := c06Renames[m]; ok {
+			return r
+		}
+		return m
+	})
 }
 
+// c06Renames: lower-cased node function name → name of its reference sibling, for private
+// functions paired by signature (see c06Pairs).
+var c06Renames = map[string]string{}
+
 func c06Noise(s string) bool {
-	for _, w := range []string{"go.uber.org/zap", "logging/fields", "LOGGER", ".metrics", "q.metrics", "github.com/pkg/errors", "fmt.", "q.allsigners", "q.newmetrics", "prometheus", "encoding/hex", "time.Now", "time.Since"} {
+	for _, w := range []string{"go.uber.org/zap", "logging/fields", "LOGGER", ".metrics", "q.metrics", "github.com/pkg/errors", "fmt.", "q.newmetrics", "prometheus", "encoding/hex", "time.Now", "time.Since"} {
 		if strings.Contains(s, w) {
 			return true
 		}
@@ -313,6 +323,10 @@ func feedsOnlyNoise(v ssa.Value, depth int) bool {
 			if c06Noise(lbl) || c06Noise(strings.ToLower(c06Norm(lbl))) {
 				continue
 			}
+			// an effect-free local helper whose own result is only logged (allSigners today)
+			if rv, ok := r.(*ssa.Call); ok && c06EffectFree(rv.Call.StaticCallee()) && feedsOnlyNoise(rv, depth+1) {
+				continue
+			}
 			return false
 		case *ssa.MakeInterface, *ssa.ChangeType, *ssa.Convert, *ssa.ChangeInterface, *ssa.Slice:
 			if !feedsOnlyNoise(r.(ssa.Value), depth+1) {
@@ -338,6 +352,52 @@ func feedsOnlyNoise(v ssa.Value, depth int) bool {
 		}
 	}
 	return true
+}
+
+// c06EffectFree: an unexported package-level function of the instance package whose body
+// writes no memory it did not allocate and calls nothing but len/cap/append: whatever it
+// returns, a call whose result is only logged cannot influence the protocol.
+var c06EffectFreeMemo = map[*ssa.Function]bool{}
+
+func c06EffectFree(h *ssa.Function) bool {
+	if h == nil || len(h.Blocks) == 0 || h.Pkg == nil || h.Pkg.Pkg.Path() != instPkg || h.Signature.Recv() != nil || h.Parent() != nil || ast.IsExported(h.Name()) {
+		return false
+	}
+	if v, ok := c06EffectFreeMemo[h]; ok {
+		return v
+	}
+	ok := true
+	for _, b := range h.Blocks {
+		for _, in := range b.Instrs {
+			switch in := in.(type) {
+			case *ssa.Store:
+				base := in.Addr
+				for {
+					if ia, isIA := base.(*ssa.IndexAddr); isIA {
+						base = ia.X
+						continue
+					}
+					if fa, isFA := base.(*ssa.FieldAddr); isFA {
+						base = fa.X
+						continue
+					}
+					break
+				}
+				if _, local := base.(*ssa.Alloc); !local {
+					ok = false
+				}
+			case *ssa.MapUpdate, *ssa.Send, *ssa.Go, *ssa.Defer, *ssa.Panic:
+				ok = false
+			case *ssa.Call:
+				bi, isB := in.Call.Value.(*ssa.Builtin)
+				if !isB || (bi.Name() != "len" && bi.Name() != "cap" && bi.Name() != "append") {
+					ok = false
+				}
+			}
+		}
+	}
+	c06EffectFreeMemo[h] = ok
+	return ok
 }
 
 func (b *c06Builder) factList(fs ens.FactSet, bind []*ens.Node, drop map[string]bool) string {
@@ -708,6 +768,43 @@ func c06Pairs(c *core.Ctx) {
 		_, ok := c06NodeOnly[k]
 		return ok
 	}
+	// a private function renamed on the node side: no sibling by name, but exactly one sibling-less
+	// private reference function has its signature (and vice versa). They are compared as a pair
+	// under the reference's name and calls of the node's name are rendered with it.
+	c06Renames = map[string]string{}
+	sigOf := func(f *ssa.Function) string {
+		var ps []string
+		for _, p := range f.Params {
+			if !isLoggerType(p.Type()) {
+				ps = append(ps, p.Type().String())
+			}
+		}
+		return fmt.Sprint(f.Signature.Recv() != nil, ps, f.Signature.Results().String())
+	}
+	bySigN, bySigS := map[string][]string{}, map[string][]string{}
+	for k, f := range nodeFns {
+		if specFns[k] == nil && unexported(f) && !allowListed(k) {
+			bySigN[sigOf(f)] = append(bySigN[sigOf(f)], k)
+		}
+	}
+	for k, f := range specFns {
+		if nodeFns[k] == nil && unexported(f) {
+			bySigS[sigOf(f)] = append(bySigS[sigOf(f)], k)
+		}
+	}
+	for sg, ns := range bySigN {
+		if ss := bySigS[sg]; len(ns) == 1 && len(ss) == 1 {
+			c06Renames["q."+ns[0]] = "q." + ss[0]
+			nodeFns[ss[0]] = nodeFns[ns[0]]
+			delete(nodeFns, ns[0])
+			c.Count("renamed_pairs", 1)
+		}
+	}
+	names = names[:0]
+	for k := range nodeFns {
+		names = append(names, k)
+	}
+	sort.Strings(names)
 	for k, f := range nodeFns {
 		if specFns[k] == nil && unexported(f) && !allowListed(k) {
 			c06Inl[f] = true
@@ -1014,7 +1111,7 @@ func c06Retention(c *core.Ctx) {
 		top := topFunc(f)
 		name := strings.TrimPrefix(ens.SSAFuncName(top), "ssv/protocol/v2/qbft/instance.")
 		lname := strings.ToLower(name)
-		if strings.HasPrefix(lname, "compact") || lname == "allsigners" {
+		if strings.HasPrefix(lname, "compact") {
 			continue
 		}
 		bind, _ := c06Bind(top)
